@@ -1,7 +1,9 @@
 from __future__ import annotations
 
+import ast as py_ast
 import hashlib
 import logging
+import operator
 import os
 import re
 import sys
@@ -2026,6 +2028,81 @@ class FortranFile:
         return None
 
 
+_PP_UNARY_OPS = {
+    py_ast.Not: operator.not_,
+    py_ast.USub: operator.neg,
+    py_ast.UAdd: operator.pos,
+    py_ast.Invert: operator.invert,
+}
+_PP_BINARY_OPS = {
+    py_ast.Add: operator.add,
+    py_ast.Sub: operator.sub,
+    py_ast.Mult: operator.mul,
+    py_ast.Div: operator.truediv,
+    py_ast.FloorDiv: operator.floordiv,
+    py_ast.Mod: operator.mod,
+    py_ast.LShift: operator.lshift,
+    py_ast.RShift: operator.rshift,
+    py_ast.BitAnd: operator.and_,
+    py_ast.BitOr: operator.or_,
+    py_ast.BitXor: operator.xor,
+}
+_PP_COMPARE_OPS = {
+    py_ast.Eq: operator.eq,
+    py_ast.NotEq: operator.ne,
+    py_ast.Lt: operator.lt,
+    py_ast.LtE: operator.le,
+    py_ast.Gt: operator.gt,
+    py_ast.GtE: operator.ge,
+}
+
+
+def eval_pp_expression(expr: str):
+    """Evaluate a preprocessor condition already rewritten to Python operators.
+
+    Only literals and boolean, arithmetic, bitwise and comparison operators are
+    interpreted. Anything else (names, calls, attribute access, ...) raises
+    ``ValueError``: text coming from source files is never executed as code.
+    """
+
+    def evaluate(node):
+        if isinstance(node, py_ast.Expression):
+            return evaluate(node.body)
+        if isinstance(node, py_ast.Constant) and isinstance(
+            node.value, (bool, int, float, str)
+        ):
+            return node.value
+        if isinstance(node, py_ast.BoolOp):
+            result = isinstance(node.op, py_ast.And)
+            for value in node.values:
+                result = evaluate(value)
+                if bool(result) != isinstance(node.op, py_ast.And):
+                    break
+            return result
+        if isinstance(node, py_ast.UnaryOp) and type(node.op) in _PP_UNARY_OPS:
+            return _PP_UNARY_OPS[type(node.op)](evaluate(node.operand))
+        if isinstance(node, py_ast.BinOp) and type(node.op) in _PP_BINARY_OPS:
+            left, right = evaluate(node.left), evaluate(node.right)
+            if isinstance(node.op, (py_ast.LShift, py_ast.RShift)) and not (
+                0 <= right < 128
+            ):
+                raise ValueError("shift count out of range")
+            return _PP_BINARY_OPS[type(node.op)](left, right)
+        if isinstance(node, py_ast.Compare):
+            left = evaluate(node.left)
+            for op, comparator in zip(node.ops, node.comparators):
+                if type(op) not in _PP_COMPARE_OPS:
+                    raise ValueError("unsupported comparison")
+                right = evaluate(comparator)
+                if not _PP_COMPARE_OPS[type(op)](left, right):
+                    return False
+                left = right
+            return True
+        raise ValueError("unsupported preprocessor expression")
+
+    return evaluate(py_ast.parse(expr.strip(), mode="eval"))
+
+
 def preprocess_file(
     contents_split: list,
     file_path: str = None,
@@ -2079,7 +2156,7 @@ def preprocess_file(
         out_line = replace_defined(text)
         out_line = replace_vars(out_line)
         try:
-            line_res = eval(replace_ops(out_line))
+            line_res = eval_pp_expression(replace_ops(out_line))
         except:
             return False
         else:
